@@ -1107,13 +1107,19 @@ func (x *Exec) execRange(st *State, s *ast.RangeStmt, label string) *State {
 		x.assertInvariants(st, ls, ord, "init", nil, s)
 		head := st.clone()
 		x.havocLoopTargets(head, nodes, nil, s)
+		// the receive in the loop header applies the channel's receive rules once
+		// per iteration: their ghosts are loop targets too
+		x.havocGhosts(head, x.rangeRecvRuleGhosts(s.X))
 		x.assumeInvariants(head, ls, nil, s)
 		exitSt := head.clone()
 		bodySt := head.clone()
 		if keyObj != nil {
 			v := x.havocVal(bodySt, keyObj.Name(), u.Elem())
 			x.assumeChanInv(bodySt, s.X, v)
+			x.applyRecvRules(bodySt, s.X, x.eval(bodySt, s.X), v, u.Elem())
 			x.declareLoopVar(bodySt, keyObj, v)
+		} else {
+			x.applyRecvRules(bodySt, s.X, x.eval(bodySt, s.X), x.havocVal(bodySt, "recvd", u.Elem()), u.Elem())
 		}
 		x.loops = append(x.loops, frame)
 		end := x.execBlock(bodySt, s.Body.List)
